@@ -5,6 +5,7 @@ pub mod field;
 pub mod sm2;
 pub mod sm3;
 pub mod sm4;
+pub mod sm9;
 pub mod zuc;
 
 pub fn self_test_all() -> Result<usize, String> {
@@ -19,6 +20,8 @@ pub fn self_test_all() -> Result<usize, String> {
     n += 9;
     der::self_test()?;
     n += 12;
+    sm9::self_test()?;
+    n += 14;
     Ok(n)
 }
 
@@ -30,6 +33,9 @@ pub fn self_test_for(prop: &str) -> Result<(), String> {
     }
     if matches!(prop, "C03" | "C04" | "C05" | "C06" | "C11" | "C14" | "C15" | "C19" | "C20") {
         sm2::self_test()?;
+    }
+    if matches!(prop, "C09" | "C10" | "C12" | "C13" | "C14" | "C16" | "C17" | "C20") {
+        sm9::self_test()?;
     }
     if matches!(prop, "C19" | "C20") {
         der::self_test()?;
